@@ -3,6 +3,8 @@
 #include "../core.h"
 #include "../seams.h"
 #include "../ref/ref.h"
+#include <cstdio>
+#include <cstdlib>
 extern "C" {
 #include <secp256k1.h>
 #include <secp256k1_extrakeys.h>
@@ -13,9 +15,9 @@ namespace sim {
 namespace {
 
 enum GenFault { G_NONE, G_ZERO_RAND, G_SK_ZERO, G_SK_OVER, G_ZERO_KEYOBJ, G_BAD_CACHE, G_NFAULTS };
-enum SignFault { S_NONE, S_OTHER_KEY, S_NEG_KEY, S_ZERO_KEYPAIR, S_NULL_OUT, S_BAD_CACHE, S_BAD_SESSION, S_ZEROED_SLOT, S_NULL_KEYPAIR, S_NULL_CACHE, S_NULL_SESSION, S_NFAULTS };
+enum SignFault { S_NONE, S_OTHER_KEY, S_NEG_KEY, S_ZERO_KEYPAIR, S_NULL_OUT, S_BAD_CACHE, S_BAD_SESSION, S_ZEROED_SLOT, S_NULL_KEYPAIR, S_NULL_CACHE, S_NULL_SESSION, S_STATIC_CTX, S_NFAULTS };
 const char *const GFN[] = {"ok", "zero_secrand", "seckey_zero", "seckey_overflow", "zeroed_key_object", "bad_cache"};
-const char *const SFN[] = {"ok", "other_keypair", "negated_keypair", "zeroed_keypair", "null_output", "bad_cache", "bad_session", "zeroed_slot", "null_keypair", "null_cache", "null_session"};
+const char *const SFN[] = {"ok", "other_keypair", "negated_keypair", "zeroed_keypair", "null_output", "bad_cache", "bad_session", "zeroed_slot", "null_keypair", "null_cache", "null_session", "static_context"};
 
 bool all_zero(const void *p, size_t n) { const uint8_t *b = (const uint8_t *)p; for (size_t i = 0; i < n; i++) if (b[i]) return false; return true; }
 
@@ -24,6 +26,21 @@ const secp256k1_musig_secnonce *g_watch = nullptr; int g_watch_live_at_cb = 0;
 void watching_illegal_cb(const char *msg, void *data) {
     counting_illegal_cb(msg, data);
     if (g_watch && !all_zero(g_watch, sizeof *g_watch)) g_watch_live_at_cb++;
+}
+
+// header-derived: does the documentation of partial_sign exclude secp256k1_context_static?
+bool partial_sign_not_static() {
+    static int v = -1;
+    if (v < 0) {
+        v = 0;
+        const char *p = getenv("SIM_NOTSTATIC");
+        FILE *f = p ? fopen(p, "r") : NULL;
+        if (!f) { fprintf(stderr, "SIM_NOTSTATIC list missing\n"); exit(3); }
+        char name[200]; int flag;
+        while (fscanf(f, "%199s %d", name, &flag) == 2) if (!strcmp(name, "secp256k1_musig_partial_sign")) v = flag;
+        fclose(f);
+    }
+    return v == 1;
 }
 
 struct Slot {
@@ -159,11 +176,14 @@ static void nonce_api_execute(const Plan &p, const ExecOpts &, Result &r) {
             g_watch = &s.sn; g_watch_live_at_cb = 0;
             bool was_live = s.live;
             int64_t ill0 = g_mon.illegal_count;
-            int ret = L01(secp256k1_musig_partial_sign(ctx, outp, &s.sn, kpp, carg, sarg));
+            // the static context: a valid argument unless the header of the tree under test says otherwise
+            const secp256k1_context *cx = f == S_STATIC_CTX ? secp256k1_context_static : ctx;
+            int ret = L01(secp256k1_musig_partial_sign(cx, outp, &s.sn, kpp, carg, sarg));
             g_watch = nullptr;
             if (was_live && g_watch_live_at_cb) r.probe("secnonce_still_live_inside_illegal_callback");
             int64_t ill = g_mon.illegal_count - ill0;
-            bool expect = was_live && f == S_NONE;
+            bool expect = was_live && (f == S_NONE || (f == S_STATIC_CTX && !partial_sign_not_static()));
+            if (f == S_STATIC_CTX && !partial_sign_not_static()) { r.expected_illegal += 0; }
             if (f != S_NONE) r.fault(std::string("sign.") + SFN[f]);
             if (!expect) r.expected_illegal += ill;
             r.cmp();
